@@ -1896,6 +1896,9 @@ class AbsInt:
                         self.write_cell(st, args[0][1], ('agg', 'std::ops::Range', 0,
                                                          (('u', ('ranged', ('rng', frame, b.path, bi), ilo[0], max(ihi[1], ilo[0])), self.vn_ty(lo) or 'usize'), hi)))
                     x = ('u', ('ranged', ('it', frame, b.path, bi), ilo[0], max(ihi[1] - 1, ilo[0])), self.vn_ty(lo) or dty)
+                    # what a half-open range yields lies inside it
+                    st.le.add(('lt', x, hi))
+                    st.le.add(('le', lo, x))
                     return ('opt', 'Option', x, ('u', ('next', frame, b.path, bi), 'bool'))
             return None
         if fn.endswith('alloc::Layout::from_size_align') and len(args) == 2 and args[1][0] == 'c':
